@@ -30,6 +30,7 @@ struct Leaf {
     float farr[8];
     bool on;             // enables this object when referenced as "leaf/on" by the parent
     int mode, val;       // val is clamped to 0..10*(mode+1): depends on mode
+    int bank, engine;    // mode depends on bank, bank depends on engine: a new engine re-initialises bank, a new bank re-initialises mode (and so on down)
     static DynPorts ports;
 };
 struct Mid {
@@ -56,7 +57,7 @@ struct LeafCfg {
     float b_def[2] = {0, 0}; bool b_depends = false;
     int arr_def[2][8] = {{0}, {0}}; bool arr_depends = false; bool arr_compressed_default = false;
     float farr_def[8] = {0};
-    int c_def = 64, o_def = 0, val_def = 0, mode_def = 0;
+    int c_def = 64, o_def = 0, val_def = 0, mode_def = 0, bank_def = 0, engine_def = 0;
     bool t_def = false, on_def = true;
     std::string s_def = "";
     int a_min = -1000, a_max = 1000;
@@ -77,7 +78,9 @@ struct Cfg {
     bool en_is_int = false;      // the enabling port is an integer parameter ("en::i"), enabled iff its value is not 0
     int en_on_value = 1;         // the non-zero level used by the exhaustive state sweep (C09)
     int mid_x_def = 0, vol_def = 100;
-    int enable_placement = 0;   // 0 none, 1 "leaf/" enabled by sibling "en", 2 "leaf/" enabled by "leaf/on"
+    int enable_placement = 0;   // 0 none, 1 "leaf/" enabled by sibling "en", 2 "leaf/" enabled by "leaf/on", 3 both (two declarations with different targets)
+    bool by_sibling() const { return enable_placement == 1 || enable_placement == 3; }
+    bool by_self() const { return enable_placement == 2 || enable_placement == 3; }
     bool has_many = true, has_ptr = true, has_top = true;
     std::string en_name = "en";   // name of Mid's toggle: "en", or one that starts with the name of the sub-tree it enables ("leaf_on", "leafen")
     bool ptr_gated = false;       // "ptr/" (a pointer member) additionally carries rEnabledBy(<en_name>)
@@ -94,7 +97,7 @@ static inline void reset_leaf(Leaf &l, const LeafCfg &c, int preset = 0)
     l.c = (unsigned char)c.c_def; l.t = c.t_def; l.o = c.o_def;
     strncpy(l.s, c.s_def.c_str(), 15);
     for(int i = 0; i < 8; ++i) { l.arr[i] = c.arr_def[c.arr_depends ? preset : 0][i]; l.farr[i] = c.farr_def[i]; }
-    l.on = c.on_def; l.mode = c.mode_def; l.val = c.val_def;
+    l.on = c.on_def; l.mode = c.mode_def; l.val = c.val_def; l.bank = c.bank_def; l.engine = c.engine_def;
 }
 static inline void reset_root(Root &r, const Cfg &c)
 {
@@ -126,6 +129,8 @@ static inline std::string diff_leaf(const Leaf &x, const Leaf &y, const LeafCfg 
     }
     if(has("on") && x.on != y.on) d += vh::fmt("%son %d!=%d ", where.c_str(), x.on, y.on);
     if(has("mode") && x.mode != y.mode) d += vh::fmt("%smode %d!=%d ", where.c_str(), x.mode, y.mode);
+    if(has("bank") && x.bank != y.bank) d += vh::fmt("%sbank %d!=%d ", where.c_str(), x.bank, y.bank);
+    if(has("engine") && x.engine != y.engine) d += vh::fmt("%sengine %d!=%d ", where.c_str(), x.engine, y.engine);
     if(has("val") && x.val != y.val) d += vh::fmt("%sval %d!=%d ", where.c_str(), x.val, y.val);
     return d;
 }
@@ -174,16 +179,11 @@ static void leaf_val_cb(const char *msg, rtosc::RtData &d)
     obj->val = v < 0 ? 0 : v > mx ? mx : v;
     d.broadcast(d.loc, "i", obj->val);
 }
-// mode: 0..9; changing it re-clamps val, so every reachable state satisfies val <= 10*(mode+1)
-static void leaf_mode_cb(const char *msg, rtosc::RtData &d)
+// what a new mode does: it selects the first preset and re-initialises everything that depends on the preset; val is re-clamped
+static void apply_mode(Leaf *obj, int v)
 {
-    Leaf *obj = (Leaf *)d.obj;
-    if(!*rtosc_argument_string(msg)) { d.reply(d.loc, "i", obj->mode); return; }
-    int v = rtosc_argument(msg, 0).i;
-    v = v < 0 ? 0 : v > 9 ? 9 : v;
+    const LeafCfg &c = G->leaf;
     if(v != obj->mode) {
-        // a new mode selects preset 0 and re-initialises everything that depends on the preset
-        const LeafCfg &c = G->leaf;
         obj->preset = c.preset_lo;
         if(c.a_depends) obj->a = c.a_def[0];
         if(c.b_depends) obj->b = c.b_def[0];
@@ -191,7 +191,47 @@ static void leaf_mode_cb(const char *msg, rtosc::RtData &d)
     }
     obj->mode = v;
     if(obj->val > 10 * (obj->mode + 1)) obj->val = 10 * (obj->mode + 1);
+}
+// mode: 0..9; changing it re-clamps val, so every reachable state satisfies val <= 10*(mode+1)
+static void leaf_mode_cb(const char *msg, rtosc::RtData &d)
+{
+    Leaf *obj = (Leaf *)d.obj;
+    if(!*rtosc_argument_string(msg)) { d.reply(d.loc, "i", obj->mode); return; }
+    int v = rtosc_argument(msg, 0).i;
+    v = v < 0 ? 0 : v > 9 ? 9 : v;
+    apply_mode(obj, v);
     d.broadcast(d.loc, "i", obj->mode);
+}
+// bank: 0..3; a new bank re-initialises the mode (declared: mode depends on bank)
+static void reinit_below_bank(Leaf *obj)
+{
+    // the mode returns to its default and everything the mode governs is re-initialised, whatever the mode was
+    obj->mode = G->leaf.mode_def == 0 ? 1 : 0;     // (so that apply_mode sees a change)
+    apply_mode(obj, G->leaf.mode_def);
+}
+static void apply_bank(Leaf *obj, int v)
+{
+    if(v != obj->bank) reinit_below_bank(obj);
+    obj->bank = v;
+}
+static void leaf_bank_cb(const char *msg, rtosc::RtData &d)
+{
+    Leaf *obj = (Leaf *)d.obj;
+    if(!*rtosc_argument_string(msg)) { d.reply(d.loc, "i", obj->bank); return; }
+    int v = rtosc_argument(msg, 0).i;
+    apply_bank(obj, v < 0 ? 0 : v > 3 ? 3 : v);
+    d.broadcast(d.loc, "i", obj->bank);
+}
+// engine: 0..3; a new engine re-initialises the bank (declared: bank depends on engine)
+static void leaf_engine_cb(const char *msg, rtosc::RtData &d)
+{
+    Leaf *obj = (Leaf *)d.obj;
+    if(!*rtosc_argument_string(msg)) { d.reply(d.loc, "i", obj->engine); return; }
+    int v = rtosc_argument(msg, 0).i;
+    v = v < 0 ? 0 : v > 3 ? 3 : v;
+    if(v != obj->engine) { obj->bank = G->leaf.bank_def; reinit_below_bank(obj); }
+    obj->engine = v;
+    d.broadcast(d.loc, "i", obj->engine);
 }
 static std::function<void(const char *, rtosc::RtData &)> CB_a = rParamICb(a), CB_b = rParamFCb(b), CB_c = rParamCb(c), CB_t = rToggleCb(t), CB_o = rOptionCb(o),
     CB_s = rStringCb(s, 16), CB_arr = rArrayICb(arr), CB_farr = rArrayFCb(farr), CB_on = rToggleCb(on), CB_mode = rParamICb(mode);
@@ -202,7 +242,7 @@ static void leaf_on_cb(const char *msg, rtosc::RtData &d)
     const char *args = rtosc_argument_string(msg);
     if(!*args) { d.reply(d.loc, obj->on ? "T" : "F"); return; }
     bool v = rtosc_argument(msg, 0).T;
-    if(v && !obj->on && G->enable_placement == 2) { reset_leaf(*obj, G->leaf); }
+    if(v && !obj->on && G->by_self()) { reset_leaf(*obj, G->leaf); }
     obj->on = v;
     d.broadcast(d.loc, args);
 }
@@ -215,7 +255,7 @@ static void mid_en_cb(const char *msg, rtosc::RtData &d)
     const char *args = rtosc_argument_string(msg);
     if(!*args) { if(G->en_is_int) d.reply(d.loc, "i", obj->en); else d.reply(d.loc, obj->en ? "T" : "F"); return; }
     int v = G->en_is_int ? rtosc_argument(msg, 0).i : (args[0] == 'T');
-    if(v && !obj->en && G->enable_placement == 1) reset_leaf(obj->leaf, G->leaf);   // only when the coupling is declared (rEnabledBy)
+    if(v && !obj->en && G->by_sibling()) reset_leaf(obj->leaf, G->leaf);   // only when the coupling is declared (rEnabledBy)
     obj->en = v;
     if(G->en_is_int) d.broadcast(d.loc, "i", v); else d.broadcast(d.loc, args);
 }
@@ -264,10 +304,12 @@ static inline void build(Cfg &c, Rng &r)
             lp.push_back({"arr#8::i", keep(m.m), 0, CB_arr});
         } else if(n == "farr") { std::string t = "["; for(int i = 0; i < 8; ++i) t += (i ? " " : "") + fl(L.farr_def[i]); m.map("default", t + "]"); lp.push_back({"farr#8::f", keep(m.m), 0, CB_farr}); }
         else if(n == "on") { m.map("default", L.on_def ? "true" : "false"); lp.push_back({"on::T:F", keep(m.m), 0, leaf_on_cb}); }
-        else if(n == "mode") { m.map("min", "0").map("max", "9").map("default", std::to_string(L.mode_def)); lp.push_back({L.colon_last ? "mode:i:" : "mode::i", keep(m.m), 0, leaf_mode_cb}); }
+        else if(n == "bank") { m.map("min", "0").map("max", "3").map("default", std::to_string(L.bank_def)); if(L.has("engine")) m.map("depends", "engine,"); lp.push_back({"bank::i", keep(m.m), 0, leaf_bank_cb}); }
+        else if(n == "engine") { m.map("min", "0").map("max", "3").map("default", std::to_string(L.engine_def)); lp.push_back({"engine::i", keep(m.m), 0, leaf_engine_cb}); }
+        else if(n == "mode") { m.map("min", "0").map("max", "9").map("default", std::to_string(L.mode_def)); if(L.has("bank")) m.map("depends", "bank,"); lp.push_back({L.colon_last ? "mode:i:" : "mode::i", keep(m.m), 0, leaf_mode_cb}); }
         else if(n == "val") { m.map("depends", "mode,").map("default", std::to_string(L.val_def)); lp.push_back({keep(L.val_name + "::i"), keep(m.m), 0, leaf_val_cb}); }
     }
-    if(c.enable_placement == 2) {
+    if(c.by_self()) {
         // rSelf(Leaf, rEnabledBy(on)): every Leaf object is enabled by its own toggle
         Meta m; m.prop("internal").map("class", "Leaf").map("enabled by", "on").map("documentation", "port metadata");
         lp.insert(lp.begin() + (long)r.below(lp.size() + 1), rtosc::Port{"self:", keep(m.m), 0, [](const char *, rtosc::RtData &d) { d.reply(d.loc, "b", sizeof(d.obj), &d.obj); }});
@@ -282,7 +324,7 @@ static inline void build(Cfg &c, Rng &r)
         Meta m;
         if(n == "en") { m.prop("parameter").map("default", c.en_is_int ? std::to_string(c.mid_en_def) : std::string(c.mid_en_def ? "true" : "false")); mp.push_back({keep(c.en_name + (c.en_is_int ? "::i" : "::T:F")), keep(m.m), 0, mid_en_cb}); }
         else if(n == "x") { m.prop("parameter").map("default", std::to_string(c.mid_x_def)); mp.push_back({c.leaf.colon_last ? "x:i:" : "x::i", keep(m.m), 0, CB_x}); }
-        else if(n == "leaf") { if(c.enable_placement == 1) m.map("enabled by", c.en_name); m.map("documentation", "leaf"); mp.push_back({"leaf/", keep(m.m), &Leaf::ports, CB_leaf}); }
+        else if(n == "leaf") { if(c.by_sibling()) m.map("enabled by", c.en_name); m.map("documentation", "leaf"); mp.push_back({"leaf/", keep(m.m), &Leaf::ports, CB_leaf}); }
         else if(n == "many") { m.map("documentation", "many"); mp.push_back({"many#3/", keep(m.m), &Leaf::ports, CB_many}); }
         else if(n == "ptr") { if(c.ptr_gated) m.map("enabled by", c.en_name); m.map("documentation", "ptr"); mp.push_back({"ptr/", keep(m.m), &Leaf::ports, CB_ptr}); }
     }
@@ -318,19 +360,22 @@ static inline void gen_cfg(Cfg &c, Rng &r)
     static const char *S[] = {"", "init", "a b", "x%y", "q\"uote", "back\\slash", "two\nlines"};
     L.s_def = S[r.below(7)];
     // subset and order of leaf ports ("preset" is needed when something depends on it; same for "mode"/"val")
-    std::vector<std::string> all = {"preset", "a", "b", "c", "t", "o", "s", "arr", "farr", "on", "mode", "val"};
+    std::vector<std::string> all = {"preset", "a", "b", "c", "t", "o", "s", "arr", "farr", "on", "mode", "val", "bank", "engine"};
+    bool deep_chain = r.chance(0.5);      // a -> preset -> mode -> bank -> engine
+    L.bank_def = (int)r.below(2); L.engine_def = (int)r.below(2);
     for(size_t i = all.size(); i > 1; --i) std::swap(all[i - 1], all[r.below(i)]);
     for(auto &n : all) {
         bool must = n == "preset" || n == "on" || n == "mode";
         // char-typed parameters (rParam, "::c") are a known finding: rarely included
         if(n == "c") { if(r.chance(0.04)) L.order.push_back(n); continue; }
+        if(n == "bank" || n == "engine") { if(deep_chain) L.order.push_back(n); continue; }
         if(must || r.chance(0.75)) L.order.push_back(n);
     }
     c.mid_en_def = r.chance(0.7);
     c.en_is_int = r.chance(0.3);
     { static const int LV[] = {1, 2, 255, 256, 512, -256, 65536, -1, 257, 1024}; c.en_on_value = c.en_is_int ? LV[r.below(10)] : 1; if(c.en_is_int && c.mid_en_def) c.mid_en_def = LV[r.below(10)]; }
     c.mid_x_def = (int)r.range(-5, 5); c.vol_def = (int)r.range(0, 127);
-    c.enable_placement = (int)r.below(3);
+    c.enable_placement = (int)r.below(4);
     c.has_many = r.chance(0.7); c.has_ptr = r.chance(0.5); c.has_top = r.chance(0.6);
     { static const char *EN[] = {"en", "en", "en", "leaf_on", "leafen"}; c.en_name = EN[r.below(5)]; }
     { static const char *VN[] = {"val", "val", "mode_val", "modeval"}; L.val_name = VN[r.below(4)]; }
